@@ -1109,7 +1109,18 @@ class list_t(object):
             self.get_model().field_l[k].set_val(
                 ValueScalar(int(v) & (1 << self.t.width)-1))
         else:
+            if not issubclass(type(v), type(self.t)):
+                raise Exception("Attempting to assign illegal element to object array")
             self.backing_arr[k] = v
+            # The solver must work on the object that the list exposes
+            model = self.get_model()
+            fm = v.get_model()
+            fm.parent = model
+            fm.idx = model.field_l[k].idx
+            fm.is_declared_rand = model.is_declared_rand
+            fm.rand_mode = model.is_declared_rand
+            model.field_l[k] = fm
+            model.name_elems()
             
     def __str__(self):
         model = self.get_model()
